@@ -55,6 +55,40 @@ def run(chk, prop):
                 chk.count("kind_" + er["kind"])
                 if er["path"]:
                     chk.count("errors_below_root")
+    # code -> spec, beyond the exhaustive universe: random schemas nested deeper, probed
+    # around the values the real generator produces for them under the constant tapes
+    from . import deep
+    ndeep, ddepth, dprobes = (250, 3, 12) if quick else (4000, 4, 40)
+    for s, real in deep.schemas(chk.rng, ndeep, ddepth):
+        seeds_abs = []
+        for tape in (["lo"], ["hi"]):
+            exc, val = valgen.real_fake(real, tape)
+            if not exc:
+                try:
+                    seeds_abs.append(am.a_value(val))
+                except am.Unrepresentable:
+                    pass
+        if not seeds_abs:
+            seeds_abs = [mutants.VNone]
+        for seedv in mutants.dedup(seeds_abs):
+            probes = mutants.probes_zoo(seedv) if prop == "C08" else mutants.probes_plain(seedv)
+            if len(probes) > dprobes:
+                probes = [probes[0]] + chk.rng.sample(probes[1:], dprobes - 1)
+            for v in probes:
+                try:
+                    v_real = am.g_value(v)
+                    v_abs = am.a_value(v_real)
+                except am.Unrepresentable:
+                    continue
+                ev = valgen.observe_validate(real, v_real)
+                ev.update({"id": len(events) + 1, "s": s, "v": v_abs, "srepr": repr(real)[:300],
+                           "vrepr": repr(v_real)[:200]})
+                events.append(ev)
+                chk.count("deep_pairs")
+                for er in ev["errs"]:
+                    chk.count("kind_" + er["kind"])
+                    if len(er["path"]) >= 2:
+                        chk.count("errors_two_levels_down")
     chk.require(len(events) >= 5000, "fewer than 5000 validate() calls (%d)" % len(events))
     chk.require(chk.counts.get("accepted", 0) >= 300 and chk.counts.get("rejected", 0) >= 1000,
                 "verdict mix too thin: %r" % chk.counts)
